@@ -57,10 +57,15 @@ Proof.
   left. reflexivity.
 Qed.
 
-(** The full statement about `eval` line numbers fails on the model of the unchanged code:
-    eval'ed from line 3, the one-line text reports line 1, bash's rule says 3. *)
-Lemma eval_lineno_refuted :
-  ~ eval_lineno_stmt (list nat) nat unit t_exec (fun _ _ st => st) t_parse t_keq (fun _ s => s) (fun s => firstn 64 s).
-Proof.
-  intros H. specialize (H [] tt [101; 10]%N 0%nat 3%nat []). vm_compute in H. discriminate.
-Qed.
+(** Regression example for the repaired finding KF-C15-eval-lineno-base: eval'ed from line 3 of its
+    source, a one-line text reports line 3 (the model of the code before fix e4871cd reported 1), and a
+    two-line text reports 3 and 4; with a frame offset of 2 (third line of standard input, `eval`
+    on the second line of its chunk) the text reports line 4. *)
+Example eval_lineno_regression :
+  fst (eval_builtin (list nat) nat unit t_exec (fun _ _ st => st) t_parse t_keq (fun _ s => s) (fun s => firstn 64 s)
+         [] tt [101; 10]%N 0 3 []) = [3]%nat /\
+  fst (eval_builtin (list nat) nat unit t_exec (fun _ _ st => st) t_parse t_keq (fun _ s => s) (fun s => firstn 64 s)
+         [] tt [101; 10; 102; 10]%N 0 3 []) = [3; 4]%nat /\
+  fst (eval_builtin (list nat) nat unit t_exec (fun _ _ st => st) t_parse t_keq (fun _ s => s) (fun s => firstn 64 s)
+         [] tt [101; 10]%N 2 2 []) = [4]%nat.
+Proof. vm_compute. repeat split. Qed.
